@@ -118,6 +118,7 @@ type Exec struct {
 	keyType   map[string]types.Type
 	objKey    map[types.Object]string
 	boxed     map[types.Object]bool
+	noSR      map[types.Object]bool // struct variables kept as one handle (parameters of predicate literals)
 	closures  map[string]*closure
 	builders  map[string]bool
 	dynType   map[string]types.Type // term string -> concrete type of interface value
@@ -146,6 +147,7 @@ type Exec struct {
 	beWhole      *T
 	skipSafety   bool // behavior runs: safety/termination/frame obligations are proved in the default run
 	bindsUsed    map[*Bind]bool
+	callsitesUsed map[*CallsiteClause]bool
 	frameVars    map[string]Val
 	frameTargets [][2]any
 	lastFrame  *frame
@@ -166,13 +168,13 @@ func newExec(prog *Program, pkg *packages.Package, fn *types.Func, fc *FuncContr
 		prog: prog, pkg: pkg, fn: fn, fc: fc,
 		decls: map[string]string{}, oblCount: map[string]int{},
 		keyType: map[string]types.Type{}, objKey: map[types.Object]string{},
-		boxed: map[types.Object]bool{}, closures: map[string]*closure{},
+		boxed: map[types.Object]bool{}, noSR: map[types.Object]bool{}, closures: map[string]*closure{},
 		builders: map[string]bool{}, dynType: map[string]types.Type{},
 		strLits: map[string]*T{}, unmodelled: map[string]bool{}, stores: map[string]bool{},
-		assumptions: map[string]bool{}, libUsed: map[string]bool{}, heapSort: map[string]Sort{}, untouched: map[*State]bool{}, bindsUsed: map[*Bind]bool{}, warnings: map[string]bool{}, lemmasUsed: map[string]bool{},
+		assumptions: map[string]bool{}, libUsed: map[string]bool{}, heapSort: map[string]Sort{}, untouched: map[*State]bool{}, bindsUsed: map[*Bind]bool{}, callsitesUsed: map[*CallsiteClause]bool{}, warnings: map[string]bool{}, lemmasUsed: map[string]bool{},
 	}
 	ex.st = &State{env: map[string]*T{}, pc: True}
-	for _, n := range []string{"errIs", "dyntype", "ifaceI", "ifaceS", "ifaceO", "memB", "memI", "memS", "memO", "wfS", "bytesEq", "atB", "atI", "atS", "atO"} {
+	for _, n := range []string{"errIs", "dyntype", "ifaceI", "ifaceS", "ifaceO", "memB", "memI", "memS", "memO", "wfS", "bytesEq", "atB", "atI", "atS", "atO", "cid", "catS"} {
 		ex.decls[n] = ""
 	}
 	return ex
